@@ -1,8 +1,10 @@
 #!/bin/sh
-# try_seed.sh <patch.diff> <check id> [tier]  — apply to /repo, run the check, always revert.
+# try_seed.sh <patch.diff> <check id> [tier]  — apply to /repo, run the check (evidence to a scratch dir, never /verif/evidence), always revert.
 P=$1; ID=$2; TIER=${3:-quick}
 cd /verif
 git -C /repo apply $P || exit 3
-./check $ID --tier $TIER 2>&1 | grep -v '^WARNING' | cut -c1-240 | tail -${TAILN:-6}
-git -C /repo checkout -- . 
+EV=$(mktemp -d)
+DVERIF_EVIDENCE_DIR=$EV ./check $ID --tier $TIER 2>&1 | grep -v '^WARNING' | cut -c1-240 | tail -${TAILN:-6}
+rm -rf $EV
+git -C /repo checkout -- .
 git -C /repo status --short
